@@ -423,6 +423,13 @@ def e2e_case(draw):
             p['export'] = True
             p['write'] = draw(st.sampled_from(['value', 'value', 'none', 'altered']))
             p['values'] = [draw(specs.valid_value(p['T'], True)) for _ in range(3)]
+        if cs['params'] and draw(st.integers(0, 2)) == 0:
+            # a struct inside a struct, the inner one with an optional member (for the partial write at the end)
+            p = cs['params'][0]
+            inner = {'k': 'struct', 'members': {'a': {'k': 'int', 'min': 0, 'max': 9}, 'b': {'k': 'int', 'min': 0, 'max': 9}}, 'optional': ['b']}
+            p['T'] = {'k': 'struct', 'members': {'inner': inner, 'x': {'k': 'int', 'min': 0, 'max': 9}}, 'optional': []}
+            p['default'] = {'inner': {'a': 0, 'b': 0}, 'x': 0}
+            p['values'] = [{'inner': {'a': draw(st.integers(1, 9)), 'b': draw(st.integers(1, 9))}, 'x': draw(st.integers(0, 9))} for _ in range(3)]
         classes.append(cs)
     return {'kind': 'e2e', 'classes': classes}
 
@@ -484,6 +491,38 @@ def check_e2e(ctx, case):
                         ctx.finding(f'e2e:{how}:cache-differs-from-node:{p["T"]["k"]}', sub, f'client cache {cache!r} ({item.readerror!r}), node cache {node!r}')
                     else:
                         ctx.ok('e2e-write-roundtrip')
+        # a struct inside a struct, written with one of its optional members left out (the node takes it from the current
+        # value): the client sends what the caller passed, the caches agree afterwards
+        for i, cs in enumerate(case['classes']):
+            mname = f'm{i}'
+            mobj = kit.modules[mname]
+            for p in cs['params']:
+                T = p['T']
+                if T['k'] != 'struct' or not p.get('values'):
+                    continue
+                full = p['values'][0]
+                part = None
+                for n_, t_ in T['members'].items():
+                    if t_['k'] == 'struct' and t_.get('optional') and isinstance(full.get(n_), dict) and t_['optional'][0] in full[n_]:
+                        part = dict(full, **{n_: {k_: v_ for k_, v_ in full[n_].items() if k_ != t_['optional'][0]}})
+                        break
+                if part is None:
+                    continue
+                ctx.ev()
+                sub = {'kind': 'e2e', 'classes': [dict(c, params=[q for q in c['params'] if q is p]) if c is cs else dict(c, params=c['params'][:1]) for c in case['classes']]}
+                try:
+                    client.setParameter(mname, p['name'], full)
+                    item = client.setParameter(mname, p['name'], part)
+                except Exception as e:   # noqa
+                    ctx.finding(f'e2e:nested-partial:write-fails:{type(e).__name__}', sub, f'{part!r}: {e!r}'[:300])
+                    if isinstance(e, (TimeoutError, ConnectionError)):
+                        return
+                    continue
+                if rm.canon(item.value) != rm.canon(mobj.parameters[p['name']].value) or item.readerror:
+                    ctx.finding('e2e:nested-partial:cache-differs-from-node', sub, f'{rm.canon(item.value)!r} vs {rm.canon(mobj.parameters[p["name"]].value)!r}')
+                else:
+                    ctx.ok('e2e-nested-partial')
+                    ctx.label('e2e:nested-partial-struct')
         ctx.sample({'e2e-node': [[p['T'] for p in cs['params']] for cs in case['classes']]}, every=1)
         proxy_part(ctx, case, classes, kit, port)
     except Exception as e:   # noqa
